@@ -2674,6 +2674,34 @@ class StateEngine(object):
                 Each nested Map or Parallel state can append to the "Branch"
                 list, which behaves like a stack.
                 """
+                if not state.get("Branches"):
+                    """
+                    With no branches there is nothing to launch or wait for,
+                    so (like a Map state with an empty input array) the result
+                    is an empty array and the Parallel state completes now.
+                    """
+                    nonlocal empty_fan_out
+                    empty_fan_out = True
+
+                    result = evaluate_payload_template(
+                        [], context, state.get("ResultSelector")
+                    )
+
+                    # Parallel and Map states apply ResultPath to "raw input"
+                    event["data"] = merge_result(data, context, result, state)
+
+                    if state.get("End"):
+                        handle_terminal_state(state_type, event, id)
+                    else:
+                        error_type, error_message = self.change_state(
+                            state_machine, state_type, state.get("Next"), event
+                        )
+                        if error_type:
+                            handle_error(state, error_type, error_message)
+
+                        self.event_dispatcher.acknowledge(id)
+                    return
+
                 context_state = context["State"]
                 if "Branch" in context_state:
                     """
@@ -2743,6 +2771,9 @@ class StateEngine(object):
                 self.event_dispatcher.acknowledge(id)
             except IntrinsicFailure as e:
                 handle_error(state, "States.IntrinsicFailure", str(e))
+                self.event_dispatcher.acknowledge(id)
+            except ResultPathMatchFailure as e:
+                handle_error(state, "States.ResultPathMatchFailure", str(e))
                 self.event_dispatcher.acknowledge(id)
             except (PathMatchFailure, Exception) as e:
                 handle_error(state, "States.Runtime", str(e))
